@@ -12,7 +12,17 @@ when the two exponentials of a term nearly cancel, as for tiny bars or huge sigm
 code's error is below (N+3) * 1.1e-16 * K2 for N = number of exponentials (<= 200 here), i.e. <= 2.3e-14 K2;
 measured on 640 generated cases of all classes: <= 2.7e-16 K2.  Away from cancellation (r ~ K2) this is
 a 1.5e-14 relative bound on v; at r = 0 it allows v <= 1.8e-7 sqrt(K2).  Relations between several
-runs use E(F,G) := sqrt(TOL2(F,G)) as the uncertainty of one value."""
+runs use E(F,G) := sqrt(TOL2(F,G)) as the uncertainty of one value.
+
+Large diagrams (size ladder, > 15 points).  A binary64 sum of P terms carries, in ANY order of summation, an
+error of at most (P - 1) * 1.1e-16 * (sum of magnitudes), so beyond the original design the coefficient follows
+that a-priori bound:  TOL2 := max(3e-14, 1.2e-16 * (P + 8)) * K2  with P = max(|F|, |G|)^2  (3e-14 up to 15
+points, i.e. for every class of the original design; 3.2e-11 at 515 points; measured on the pinned scalar loop at
+520 points: 4.3e-14 K2, which is why 3e-14 cannot simply be kept).  The 60-digit decimal evaluation of the closed
+form costs 30 us per exponential, so kernel sums of more than 400 pairs are evaluated by `_k_fast`: the same closed
+form in x87 extended precision (error < 1e-17 K2, see its docstring; validated against the decimal evaluation on
+the small classes).  No interval certificate is attempted above 300 kernel terms (verdict "skip:..."); those
+cases are judged by the predicate alone."""
 import math
 from decimal import Decimal, getcontext
 from fractions import Fraction
@@ -39,7 +49,17 @@ RULE = ("seeded generator over classes {reorder (G = F permuted), near (G = F + 
         "sigma in {0.01, 0.4, 5, random}; 1-5 points per diagram; every case also carries a third diagram, a shift, "
         "a permutation and diagonal points for the metamorphic relations. Non-trivial: both diagrams non-empty with "
         "at least one off-diagonal point each and (>= 2 points in one of them or a reordering/near-equality class); "
-        "distinct = distinct JSON input")
+        "distinct = distinct JSON input. "
+        "Added after seeded batch 4 -- size ladder `size-*`: one diagram just above a block size and never a multiple of "
+        "one (xs 17-19/33-35/49-51/65-67, s 101-104/129-133, m 257-265, l 513-530, xl 1025-1059; thorough also 2*256+r), as "
+        "first argument, as second argument, two large diagrams, or a large diagram against a reordering of itself; "
+        "births over 2, 4 or 20 units, a few exact duplicates, sigma in {0.4, 0.05, 1, random}; up to 200 points "
+        "every relation is evaluated, above that only the calls listed in case['lite'] (formula + symmetry, or the "
+        "formula alone when both diagrams are large), because each call of the pinned scalar loop costs 9 us per "
+        "pair (2.3 s at 515 points); quick: 2 xs, 1 s, 1 m (reordering), 1 l; thorough: 24 xs, 10 s, 8 m, 6 l, 1 xl, "
+        "1 at 513-552 as second argument. `layout`: the same small diagrams handed over as nested lists, tuples, "
+        "Fortran-ordered arrays, a strided view of a larger buffer, read-only arrays or (integer coordinates) an "
+        "int64 array, half of them with the array objects shared by all calls of the case (quick 4, thorough 60)")
 TRUSTED_BASE = [
     "Coq 8.16.1 kernel (vm_compute inside the Interval tactic's reflexive checker; no native_compute)",
     "stdlib axioms of the classical reals: ClassicalDedekindReals.sig_forall_dec, sig_not_dec, "
@@ -47,10 +67,13 @@ TRUSTED_BASE = [
     "coq-interval (per-case certificates) incl. primitive-float/int63 specification axioms of the stdlib",
     "hand-written model Model/HeatM.v of heat.py lines 12-55",
     "harness: generator, float->exact-rational printer, tolerance rule TOL2 (module docstring), 50-digit decimal reference",
+    "large diagrams (size ladder): closed form evaluated with numpy long double (x87 extended, eps 1.1e-19) and glibc expl "
+    "instead of the decimal reference; these cases have no Coq certificate (model run skipped)",
 ]
 ASSUMPTIONS = [
     "numpy semantics of np.exp, np.sum, slicing I2[j, 1::-1] (mirror) are as modelled",
-    "binary64 rounding of the implementation is bounded by TOL2 (compared on squares), not proved",
+    "binary64 rounding of the implementation is bounded by TOL2 (compared on squares), not proved; for more than 15 "
+    "points TOL2 grows with the number of summed terms (a-priori bound of a sum in any order, module docstring)",
     "the stability bound is a theorem about the model for every partial matching (heat_stability); on the "
     "implementation it is monitored on every generated case against an independently computed Euclidean W1 and "
     "against persim.wasserstein",
@@ -202,8 +225,8 @@ LITE_FROM = 200      # diagrams above this size run only the calls listed in cas
 
 
 def _size_case(rng, band, kind=None, twice=False):
-    """One diagram just above a block size (band: xs 17-72, s 101-140, m 257-275, l 513-530, xl
-    1025-1040); kind: Fbig | Gbig (the other diagram has 1-5 points) | both (two large diagrams of different
+    """One diagram just above a block size (band: xs 17-67, s 101-133, m 257-265, l 513-530, xl 1025-1059;
+    twice: 2 * base + 1..40); kind: Fbig | Gbig (the other diagram has 1-5 points) | both (two large diagrams of different
     sizes) | reorder (G = F permuted).  Points of the large diagram: births over 2, 4 or 20 units (dense to
     sparse at sigma 0.4), a few exact duplicates; up to `LITE_FROM` points every relation is evaluated."""
     c = _case(rng, "generic")
@@ -650,8 +673,8 @@ def shrink_candidates(c):
     for key in ("F", "G", "H"):
         X = c[key]
         if len(X) > 16:
-            # ... then drop halves, quarters, ... sixteenths (the size itself is usually what matters)
-            for parts in (2, 4, 8, 16):
+            # ... then drop halves, quarters, eighths (the size itself is usually what matters)
+            for parts in ((2, 4, 8) if len(X) > 64 else (2, 4, 8, 16)):
                 step = -(-len(X) // parts)
                 for j in range(0, len(X), step):
                     d = dict(c)
